@@ -37,6 +37,13 @@ pub enum Kind {
         xor: bool,
         r: Vec<Fe>,
     },
+    /// a raw row with an arbitrary combination of selectors (several gate
+    /// families at once) on arbitrary values
+    RandomRaw { sel: Vec<Fe>, mask: u16, vals: [Fe; 4], next: [Fe; 4], pi: Option<Fe> },
+    /// residuals on m adjacent public-input rows chosen so that the
+    /// remainder polynomial has degree < n - d (its top d coefficients vanish):
+    /// defeats any detection rule that inspects only the top coefficients
+    Structured { m: u8, d: u8, deltas: Vec<Fe> },
     /// every row satisfied, one compiled copy constraint broken
     Drift { a: Fe, b: Fe },
     /// instance with one gate more / fewer
@@ -74,6 +81,16 @@ fn kind_strategy() -> BoxedStrategy<Kind> {
                 xor,
                 r,
             }),
+        3 => (
+            proptest::collection::vec(prop_oneof![2 => Just(Fe(F::one())), 1 => Just(Fe(-F::one())), 1 => Just(Fe(F::from(2u64))), 2 => fe_random()], 11),
+            any::<u16>(),
+            proptest::array::uniform4(prop_oneof![1 => Just(Fe(F::zero())), 1 => Just(Fe(F::one())), 2 => fe_any()]),
+            proptest::array::uniform4(prop_oneof![1 => Just(Fe(F::zero())), 2 => fe_any()]),
+            proptest::option::of(fe_any()),
+        )
+            .prop_map(|(sel, mask, vals, next, pi)| Kind::RandomRaw { sel, mask, vals, next, pi }),
+        3 => (2u8..9, 1u8..8, proptest::collection::vec(fe_nonzero(), 8))
+            .prop_map(|(m, d, deltas)| Kind::Structured { m, d: d.min(m - 1), deltas }),
         2 => (fe_any(), fe_any()).prop_map(|(a, b)| Kind::Drift { a, b }),
         1 => any::<bool>().prop_map(|more| Kind::Size { more }),
     ]
@@ -421,6 +438,35 @@ fn materialise(c: &Case) -> Result<(Vec<Op>, Vec<Op>, Vec<(usize, F)>, String), 
                 if *with_arith { "+arith" } else { "" }
             );
         }
+        Kind::Structured { m, .. } => {
+            compiled.extend(c.post.clone());
+            for i in 0..*m {
+                compiled.push(Op::Public(Fe(F::from(100 + i as u64))));
+            }
+            instance = compiled.clone();
+            class = "structured multi-row residual".to_string();
+        }
+        Kind::RandomRaw { sel, mask, vals, next, pi } => {
+            // selectors switched on by the mask; everything else zero
+            let sel: Vec<Fe> = sel
+                .iter()
+                .enumerate()
+                .map(|(i, s)| if mask & (1 << i) != 0 { *s } else { Fe(F::zero()) })
+                .collect();
+            compiled.push(Op::Raw {
+                sel,
+                vals: *vals,
+                next: Some(*next),
+                pi: match pi {
+                    None => Pi::None,
+                    Some(p) => Pi::Val(*p),
+                },
+            });
+            compiled.extend(c.post.clone());
+            instance = compiled.clone();
+            let fams = (mask >> 6) & 0x1f;
+            class = format!("random raw row ({} selector families on)", fams.count_ones());
+        }
         Kind::Drift { a, b } => {
             // a witness pinned by a constant gate also sits on an
             // unconstrained wire (all selectors zero) of a later gate; the
@@ -462,6 +508,74 @@ fn check(ctx: &Ctx, c: &Case) -> PResult {
     let layout = Layout::from_snapshot(&comp_c.verif_snapshot());
     let n = layout.rows.len();
 
+    if let Kind::Structured { m, d, deltas } = &c.kind {
+        let (_, tr) = prog::build(&compiled)
+            .map_err(|e| Fail::new("honest-build-error", format!("{e:?}")))?;
+        let m = *m as usize;
+        let d = (*d as usize).min(m - 1);
+        // the last m handles are the public witnesses; their rows are the
+        // last m rows
+        let nh = tr.wits.len();
+        let first_row = n - m;
+        let size = layout.size();
+        let w = crate::naive::omega(size.trailing_zeros());
+        // unknown residuals e_0..e_{m-1} on rows first_row+i with
+        // sum_i e_i w^{(first_row+i) t} = 0 for t = 1..=d; the first m-d are
+        // given, the last d solved by Gaussian elimination
+        let free: Vec<F> = (0..m - d).map(|i| deltas[i % deltas.len()].0).collect();
+        let coef = |i: usize, t: usize| crate::naive::pow(w, ((first_row + i) * t) as u64);
+        let mut a = vec![vec![F::zero(); d + 1]; d];
+        for t in 1..=d {
+            for k in 0..d {
+                a[t - 1][k] = coef(m - d + k, t);
+            }
+            let mut rhs = F::zero();
+            for (i, e) in free.iter().enumerate() {
+                rhs -= *e * coef(i, t);
+            }
+            a[t - 1][d] = rhs;
+        }
+        let mut ok = true;
+        for col in 0..d {
+            let Some(piv) = (col..d).find(|r| a[*r][col] != F::zero()) else {
+                ok = false;
+                break;
+            };
+            a.swap(col, piv);
+            let inv = a[col][col].invert().unwrap();
+            for k in col..=d {
+                a[col][k] *= inv;
+            }
+            for r in 0..d {
+                if r != col {
+                    let f = a[r][col];
+                    if f != F::zero() {
+                        for k in col..=d {
+                            let v = a[col][k];
+                            a[r][k] -= f * v;
+                        }
+                    }
+                }
+            }
+        }
+        if !ok {
+            ctx.excluded("structured residual: singular system");
+            return Ok(());
+        }
+        let mut e = free;
+        for r in 0..d {
+            e.push(a[r][d]);
+        }
+        // row identity is -a + PI = 0: shifting the witness by delta leaves
+        // the residual -delta
+        let overrides: Vec<(usize, F)> = (0..m)
+            .map(|i| {
+                let h = nh - m + i;
+                (tr.wits[h].index(), tr.model[h] - e[i])
+            })
+            .collect();
+        return run(ctx, c, compiled, instance_ops, overrides, format!("{class} m={m} top{d}-coefficients-cancel"));
+    }
     if let Kind::Drift { .. } = c.kind {
         // re-point the last gate's wire `a` from the last handle (the Wit) to
         // the Const handle: find picks by count of handles
